@@ -550,3 +550,52 @@ fn run_git_capture(repo: &Path, args: &[&str]) -> io::Result<std::process::Outpu
         .stderr(Stdio::piped())
         .output()
 }
+
+#[cfg(feature = "verif-hooks")]
+pub mod verif {
+    //! Wrappers used by the verification harness (cargo feature `verif-hooks`).
+    use super::*;
+
+    pub fn normalize_detected_value(bytes: &[u8]) -> Option<String> {
+        super::normalize_detected_value(bytes)
+    }
+
+    pub fn looks_binary_blob(payload: &[u8]) -> bool {
+        super::looks_binary_blob(payload)
+    }
+
+    /// the built-in patterns plus `custom`, run over the payloads in order with one shared
+    /// de-duplication set and the global cap: (value, pattern name) in detection order
+    pub fn detect_values(payloads: &[Vec<u8>], custom: &[String]) -> io::Result<Vec<(String, String)>> {
+        let opts = Options {
+            detect_secrets: true,
+            detect_patterns: custom.to_vec(),
+            ..Options::default()
+        };
+        let patterns = build_patterns(&opts)?;
+        let mut dedup = HashSet::new();
+        let mut detections = Vec::new();
+        for (i, p) in payloads.iter().enumerate() {
+            if looks_binary_blob(p) {
+                continue;
+            }
+            collect_blob_detections(p, &format!("{:040x}", i), None, &patterns, &mut dedup, &mut detections);
+        }
+        Ok(detections.into_iter().map(|d| (d.value, d.pattern)).collect())
+    }
+
+    /// what `write_detection_draft` writes for these values (all attributed to path `p`)
+    pub fn draft(dir: &Path, values: &[String]) -> io::Result<Vec<u8>> {
+        let detections: Vec<Detection> = values
+            .iter()
+            .map(|v| Detection {
+                value: v.clone(),
+                pattern: "pattern".to_string(),
+                oid: "0123456789abcdef0123456789abcdef01234567".to_string(),
+                path: Some("p".to_string()),
+            })
+            .collect();
+        let path = write_detection_draft(dir, &detections)?;
+        std::fs::read(path)
+    }
+}
